@@ -40,8 +40,8 @@ checks = {
    design="5/C07"),
  "C08": dict(
    text="Bounded symbolic model checking of the real cache code (cache.get, pruneMaxRead, pruneSegments, NumHash.get/update/error, Client.Latest, Client.Get cached path, logs/receipts/traces attaching to shared cached blocks, eth.Logs.Add) against an honest unchanging node: every order of n requests over two ranges and two callers with different log filters, node failures as solver Booleans; z3/engine decide same data as uncached, matching log present exactly once, no log twice, no cached error, reuse <= maxreads per fetch, at most five segments; head cache: announced-pair, floor, reuse bound.",
-   note="Sequential request sequences only (enumerated orders); concurrent interleavings of the cache's two critical sections are not explored. n <= 3 (quick) / 5 (thorough).",
-   technique="go/ssa symbolic execution over enumerated request orders -> SMT (z3); native replay with the same cut",
+   note="Sequential request sequences: enumerated orders, n <= 3 (quick) / 5 (thorough). Concurrent mixes: 2 (thorough 3) callers of one range and two Latest callers plus the poller run as engine threads under a bounded scheduler (preemption only at synchronisation operations, budget <= 1 quick / 2 thorough); callers of different ranges concurrently and larger mixes are outside. Scheduled counterexamples are replayed in the engine's concrete mode with the recorded schedule (a native run cannot be forced into a schedule).",
+   technique="go/ssa symbolic execution over enumerated request orders and bounded schedules -> SMT (z3); native replay with the same cut (sequential), engine-concrete replay (scheduled)",
    design="5/C08"),
  "C09": dict(
    text="Bounded symbolic model checking of the real ABI type parser (Input.ABIType, parseArray, hasStatic, sizeof) with symbolic array-length digits, and of the real decoder (Result.Scan, scan, GetRow) against a reference ABI encoder and row rule over 18 type trees with all values symbolic; each decoder instance is used twice.",
@@ -100,7 +100,7 @@ m = {
  "engines": [{"name": "gosym", "path": "/verif/gosym", "serves_properties": sorted(checks), "kind_free_text": "go/ssa -> SMT symbolic executor (own code) with z3 4.8.12 back end; path exploration by re-execution; if-conversion of pure regions; native replay via go test -overlay"}],
  "checks": [],
  "not_applicable": [],
- "notes": "C08 is claimed for sequential request sequences only; C18 is a predictive query over sequentialised paths; C20's schedule half is explored under a bounded scheduler (said in each check's level_note and evidence assumptions). C16's space is mostly configuration shape enumerated by the engine's case splits.",
+ "notes": "C08's concurrent half is explored under a bounded scheduler for callers of one range only; C18 is a predictive query over sequentialised paths; C20's schedule half is explored under a bounded scheduler (said in each check's level_note and evidence assumptions). C16's space is mostly configuration shape enumerated by the engine's case splits.",
 }
 checks["C15"] = dict(
    text="Non-interference by symbolic execution of the real validation (config.ValidateFix / CheckUserInput / ValidateFilterRefs / wstrings.Safe) followed by every real SQL text builder (config.DDL, wpg.Table.DDL/Migrate, dig.Integration.Delete, dig.Filter.Accept reference lookup incl. nested components, dig.Integration.notify, shovel.NewTask application_name): one symbolic byte is appended to each of 20 configuration string positions on the file path and on the dashboard path; whenever the configuration is accepted and a recorded SQL text is a function of the byte, z3 proves the byte is an identifier character. Chain-derived bytes must not influence any SQL text.",
